@@ -365,6 +365,22 @@ func scanABC(d []byte, o int) expect { // a(b*)c, value = group 1
 	return expect{ok: true, end: i + 1, val: string(d[o+1 : i])}
 }
 
+func scanFooBar(d []byte, o int) expect { // foo|ba+r : the alternation is anchored at the offset as a whole
+	if bytes.HasPrefix(d[o:], []byte("foo")) {
+		return expect{ok: true, end: o + 3, val: "foo"}
+	}
+	if o+2 < len(d) && d[o] == 'b' && d[o+1] == 'a' {
+		i := o + 1
+		for i < len(d) && d[i] == 'a' {
+			i++
+		}
+		if i < len(d) && d[i] == 'r' {
+			return expect{ok: true, end: i + 1, val: string(d[o : i+1])}
+		}
+	}
+	return expect{}
+}
+
 var durUnits = []string{"ns", "us", "µs", "μs", "ms", "s", "m", "h"}
 
 func scanDuration(d []byte, o int) expect {
@@ -455,7 +471,18 @@ func escapeFamily(q string) []string {
 	var out []string
 	esc := []string{`\a`, `\b`, `\f`, `\n`, `\r`, `\t`, `\v`, `\\`, `\'`, `\"`, `\/`, `\q`, `\x41`, `\xff`, `\x4`, `\xg1`, `\101`, `\377`, `\400`, `\08`, `é`, `€`, `퟿`, `\ud800`, `\udfff`, ``, `\u12`,
 		`\U0001F600`, `\U0010FFFF`, `\U00110000`, `\U0010fffe`, `\U00000000`, `\U0000D800`, `\U0010FFF`, `\UFFFFFFFF`, `\u0000`}
-	raw := []string{"", "a", "é", "€", "\xff", "\xc3", " ", "😀"}
+	// escapes denoting the code points at every UTF-8 length boundary, the surrogate range, the replacement
+	// character (which decoders use as an error sentinel) and the ends of the code space, in both hex cases
+	for _, cp := range []int{0, 0x7f, 0x80, 0x7ff, 0x800, 0xd7ff, 0xd800, 0xdfff, 0xe000, 0xfffc, 0xfffd, 0xfffe, 0xffff, 0x10000, 0x10fffd, 0x10ffff, 0x110000} {
+		if cp <= 0xffff {
+			esc = append(esc, fmt.Sprintf(`\u%04x`, cp), fmt.Sprintf(`\u%04X`, cp))
+		}
+		esc = append(esc, fmt.Sprintf(`\U%08x`, cp), fmt.Sprintf(`\U%08X`, cp))
+		if cp <= 0xff {
+			esc = append(esc, fmt.Sprintf(`\x%02x`, cp), fmt.Sprintf(`\%03o`, cp))
+		}
+	}
+	raw := []string{"", "a", "é", "€", "\xff", "\xc3", " ", "😀", "\ufffd", "\xef\xbf", "\xed\xa0\x80"}
 	for _, e := range esc {
 		out = append(out, q+e+q, q+e, q+"a"+e+q, q+e+"a"+q, q+"é"+e+q)
 		for _, e2 := range esc[:14] {
@@ -498,6 +525,7 @@ var literalParsers = []litParser{
 	{name: `Rune('€')`, p: terminal.Rune('€'), symbols: []string{"€", "\xe2", "\x82", "\xac", "a"}, maxLen: [2]int{4, 5}, scan: scanPrefix("€", '€')},
 	{name: "Regexp([a-z]+,0)", p: terminal.Regexp(nil, "ID", "identifier", "[a-z]+", 0), symbols: []string{"a", "b", "c", "1", " ", "Z"}, maxLen: [2]int{5, 6}, scan: scanLower},
 	{name: "Regexp(a(b*)c,1)", p: terminal.Regexp(nil, "ABC", "abc", "a(b*)c", 1), symbols: []string{"a", "b", "c", "1", " "}, maxLen: [2]int{5, 6}, scan: scanABC},
+	{name: "Regexp(foo|ba+r,0)", p: terminal.Regexp(nil, "KW", "keyword", "foo|ba+r", 0), symbols: []string{"foo", "bar", "a", "f", "b", "r", "-"}, maxLen: [2]int{5, 6}, scan: scanFooBar},
 	{name: "TimeDuration", p: terminal.TimeDuration(nil), symbols: []string{"0", "1", ".", "h", "m", "s", "n", "u", "µ", "μ", "-", "+", " "}, maxLen: [2]int{5, 6}, scan: scanDuration, family: durationFamily},
 }
 
@@ -645,7 +673,7 @@ func init() {
 	explore.Register(&explore.Check{
 		ID:    "C08",
 		Level: "model_checking",
-		Rule: "for each of 18 literal-parser configurations: every byte string of 0..N symbols over that literal's alphabet (syntax characters + the bytes that drive its edge branches, incl. multi-byte runes, invalid UTF-8, CR/LF) parsed at EVERY offset, plus complete boundary families (int64/uint64 edges in decimal/hex/octal, float64 overflow/underflow exponents, every escape form incl. surrogates and out-of-range code points, durations around +-2^63 ns); " +
+		Rule: "for each of 19 literal-parser configurations: every byte string of 0..N symbols over that literal's alphabet (syntax characters + the bytes that drive its edge branches, incl. multi-byte runes, invalid UTF-8, CR/LF) parsed at EVERY offset, plus complete boundary families (int64/uint64 edges in decimal/hex/octal, float64 overflow/underflow exponents, every escape form incl. surrogates and out-of-range code points, durations around +-2^63 ns); " +
 			"oracle: hand-written scanner of the documented syntax + strconv/time/utf8 conversions; state = one byte string; transition = one Parse call at one offset; non-trivial = a string in which at least one offset holds an accepted literal",
 		Assume: []string{
 			"the documented syntax of each literal is the one its parser's pattern states (re-implemented by hand in mc/ix/c08.go); strconv.ParseInt/ParseFloat, time.ParseDuration and unicode/utf8 are the conversion oracles",
